@@ -78,6 +78,9 @@ def check(ctx):
     c01.rule_search(ctx, F, "R4")            # the frame is found by a search for the position in every phase      # at and after the last frame the lookup yields that frame (the value is held)
     from rules import derive_rules
     derive_rules.rule_wiring(ctx, "R4")
+    # the value at a keyframe is exact only if the segment's easing maps 0 to 0 and 1 to 1 exactly (C13/R1-R3)
+    from rules import c13
+    c13.include_endpoints(ctx, "R5")
     ctx.notes.append("not decided: 'within a few ulps' at interior keyframes (needs ease(1) = 1 and division rounding), "
                      "every cycle k (periodicity of % in floats)")
     ctx.assumptions += ["cycle duration finite > 0", "values representable in f32 (the property's premise)"]
